@@ -64,4 +64,16 @@ theorem sortedAsc_pairwise : ∀ (l : List Nat), sortedAsc l = true → l.Pairwi
       · exact h.1
       · have := (List.pairwise_cons.mp hr).1 x hx; omega
 
+/-- What an accepted observation guarantees (a lemma about the ACCEPTOR; that pipeline.go only
+produces accepted observations is established by running it, not proved). -/
+theorem valid_guarantees (conc : Nat) (o : Obs) (h : valid conc o = true) :
+    (all o).Nodup ∧ (∀ i, i ∈ all o ↔ i < o.sent) ∧
+    (∀ w ∈ o.perWorker, w.Pairwise (· < ·)) ∧ (o.isDone = true ↔ o.sent = o.n) ∧ o.sent ≤ o.n ∧
+    (∀ c ∈ o.doneCalls, c = 1) := by
+  obtain ⟨_, h2, h3, h4, _, _, h7, _⟩ := valid_parts h
+  exact ⟨nodup_of_valid h, mem_iff_of_valid h, fun w hw => sortedAsc_pairwise w (h4 w hw), h3, h2, h7⟩
+
+example : valid 2 ⟨5, 3, false, [[0, 2], [1]], [1, 1]⟩ = true := by decide
+example : valid 2 ⟨5, 3, false, [[0, 2], [1, 2]], [1, 1]⟩ = false := by decide
+
 end Juno.C18.Pipe
